@@ -311,6 +311,35 @@ def check_history(errors, trie):
                 except Exception as ex:
                     problems.append(("history|below-error-free|%s" % type(ex).__name__,
                                      {"at": list(pre) + [el0], "lookups": [list(o) for o in seq]}))
+            # a tree handed out by a lookup belongs to that lookup: filing something into it through the public
+            # __setitem__ changes neither what other error-free lookups return nor a tree built afterwards
+            if ok and len(seq) == 1 and seq[0][0] == "error-free":
+                el0 = seq[0][1]
+                try:
+                    t1 = ErrorTree(errors)
+                    n1 = t1
+                    for el in pre:
+                        n1 = n1[el]
+                    held = n1[el0]
+                    held["filed-by-caller"] = ErrorTree(errors[:1])
+                    t2 = ErrorTree(errors)
+                    for tree_, label in ((t1, "same-tree"), (t2, "tree-built-afterwards")):
+                        n2 = tree_
+                        for el in pre:
+                            n2 = n2[el]
+                        for other in free:
+                            if other == el0 and tree_ is t1:
+                                continue
+                            got = n2[other]
+                            if got.total_errors != 0 or got.errors or list(got):
+                                problems.append(("history|setitem-on-returned-tree|leaks-into-%s" % label,
+                                                 {"at": list(pre), "filed_under": el0, "looked_up": other}))
+                                break
+                        if len(tree_) != trie.below[()] and tree_ is t2:
+                            problems.append(("history|setitem-on-returned-tree|totals-of-tree-built-afterwards",
+                                             {"at": list(pre), "filed_under": el0}))
+                except Exception as ex:
+                    problems.append(("history|setitem-on-returned-tree|%s" % type(ex).__name__, {"at": list(pre)}))
             it = list(iter(node))
             what = "+".join(k for k, _ in seq)
             if set(it) != want or len(it) != len(set(it)):
